@@ -488,6 +488,13 @@ impl DiskCache {
             return Ok(false);
         };
 
+        // the chunk table has to describe exactly the range in the file's name; the table of a file
+        // that was renamed to another range does not, and indexing it by that range would run past its end
+        if header.chunk_byte_indices.len() != (cache_item.range.end - cache_item.range.start) as usize + 1 {
+            self.remove_item(key, cache_item)?;
+            return Ok(false);
+        }
+
         // validate the chunk_byte_indices and data input against stored data
         // the chunk_byte_indices should match the chunk lengths, if the ranges
         // don't start at the same chunk, values will be different, what's important
